@@ -50,6 +50,10 @@ def check_min_burst_cycles(is_burst, min_n_cycles=3):
     durations = offs - ons
     too_short = durations < min_n_cycles
 
+    # a read-only array (e.g. a column of a pandas table) cannot be edited in place
+    if too_short.any() and not is_burst.flags.writeable:
+        is_burst = is_burst.copy()
+
     # construct bool time series from transition indices
     for silence_on, silence_off in zip(ons[too_short], offs[too_short]):
         is_burst[silence_on:silence_off] = False
